@@ -42,22 +42,22 @@ def exact_value(lit):
 
 
 def float_literal_rounded(rec):
-    """K1: a JSON number literal written with a fraction or exponent (or too large for 64-bit
-    integers) whose exact value differs from the double serde_json hands to hdwallet."""
+    """K1: a JSON number literal that serde_json reads through its (lossy) f64 parser — written with a fraction or
+    exponent, or an integer outside the 64-bit range — and that carries more than 15 significant decimal digits, so
+    that it is not guaranteed to survive that parser exactly.  Such a literal may be rounded to a neighbouring double
+    before hdwallet sees it and is then accepted at the rounded value.  (Literals with <= 15 significant digits are
+    always read exactly, so a wrong value for one of those is NOT in this class.)"""
     case = rec.get("case") or {}
     lit = case.get("number_literal")
     if lit is None:
         return False
-    if not re.search(r"[.eE]", lit) and abs(int(lit)) < (1 << 64):
+    m = re.fullmatch(r"-?(\d+)(?:\.(\d+))?(?:[eE][+-]?\d+)?", lit)
+    if not m:
         return False
-    v = exact_value(lit)
-    if v is None:
+    if not re.search(r"[.eE]", lit) and -(1 << 63) <= int(lit) < (1 << 64):
         return False
-    try:
-        d = Fraction(float(lit))
-    except (OverflowError, ValueError):
-        return False
-    return d != v
+    digits = (m.group(1) + (m.group(2) or "")).lstrip("0").rstrip("0")
+    return len(digits) > 15
 
 
 CLASSES = {
